@@ -1,4 +1,5 @@
 import LncModel.Proofs.ProtoStep
+import LncModel.Control
 /-
   C06 — GBN progress (the untimed logical core; the timed statement is explored
   on the real connection, see DESIGN.md).
@@ -83,7 +84,60 @@ theorem nack_of_top_empties (σ : Uni) (h : Inv σ) (hR : σ.R = σ.T) :
     (σ.q.processNACK (σ.T % σ.q.s)).1 = { σ.q with base := σ.q.top } := by
   rw [processNACK_spec h (σ.T % σ.q.s) σ.T (by have := h.BR; omega) (by omega) rfl, h.top_eq]
 
+/-! ### the resend timer is not starved by the peer's own traffic -/
+open Lnc.Gbn.Control in
+/-- **with the repaired reset rule, whatever DATA / ping traffic the peer sends,
+    the resend timer fires by its deadline** (so a lost packet is retransmitted
+    one resend timeout after the last response, for every reverse-traffic
+    pattern) -/
+theorem resend_fires_despite_peer_traffic (rt : ResendTimer) (hist : List (RxKind × Nat)) (horizon : Nat)
+    (hdata : ∀ e ∈ hist, e.1 = RxKind.data) (hh : rt.deadline ≤ horizon) :
+    firesBy resetsOnResponse rt hist horizon = true := by
+  induction hist with
+  | nil => simp [firesBy, hh]
+  | cons e rest ih =>
+    obtain ⟨k, t⟩ := e
+    have hk : k = RxKind.data := hdata (k, t) List.mem_cons_self
+    subst hk
+    simp only [firesBy]
+    split
+    · rfl
+    · have : rt.recv resetsOnResponse RxKind.data t = rt := by simp [ResendTimer.recv, resetsOnResponse]
+      rw [this]
+      exact ih (fun e he => hdata e (List.mem_cons_of_mem _ he))
+
+open Lnc.Gbn.Control in
+theorem peerTraffic_succ (t0 p n : Nat) :
+    peerTraffic t0 p (n + 1) = (RxKind.data, t0 + p) :: peerTraffic (t0 + p) p n := by
+  simp only [peerTraffic, List.range_succ_eq_map, List.map_cons, List.map_map]
+  congr 1
+  · simp
+  · refine List.map_congr_left fun i _ => ?_
+    simp only [Function.comp, Nat.succ_eq_add_one, Prod.mk.injEq, true_and]
+    rw [Nat.add_mul (i + 1) 1 p, Nat.one_mul]; omega
+
+open Lnc.Gbn.Control in
+/-- **the rule before the repair is starved**: a peer sending with any period
+    shorter than the resend timeout keeps the timer from ever firing — for
+    every length of the history (this is the retired known finding
+    `C06/retransmit-starved-by-reverse-traffic`, and its keepalive-ping variant) -/
+theorem starved_before_repair (T p : Nat) (hp : p < T) (n t0 : Nat) :
+    firesBy resetsOnAny ⟨t0 + T, T⟩ (peerTraffic t0 p n) (t0 + n * p) = false := by
+  induction n generalizing t0 with
+  | zero => simp [peerTraffic, firesBy]; omega
+  | succ n ih =>
+    rw [peerTraffic_succ]
+    simp only [firesBy]
+    rw [if_neg (by omega)]
+    have h1 : (⟨t0 + T, T⟩ : ResendTimer).recv resetsOnAny RxKind.data (t0 + p) = ⟨(t0 + p) + T, T⟩ := by
+      simp [ResendTimer.recv, resetsOnAny]
+    rw [h1, show t0 + (n + 1) * p = (t0 + p) + n * p by rw [Nat.add_mul, Nat.one_mul]; omega]
+    exact ih (t0 + p)
+
 /-! non-vacuity -/
 example : resendSeqs 4 5 3 1 = .ok [3, 0] := by decide
+open Lnc.Gbn.Control in
+example : firesBy resetsOnResponse ⟨10, 10⟩ (peerTraffic 0 3 5) 20 = true ∧
+          firesBy resetsOnAny ⟨10, 10⟩ (peerTraffic 0 3 5) 20 = false := by decide
 
 end Lnc.Props.C06
